@@ -9,10 +9,11 @@ NATIVE = "c13.py"
 EXPLANATION = (
     "Mostly a BOUNDED stand-in; level 'other'. PROVED from the body (arity 1, 2, 3): the combination filter refuses arity < 2, its "
     "row mask `treatment_selection_vector` is exactly 'no control in the row', the selection vector has one entry per experiment "
-    "and the returned screen is exactly screen[selection] column by column (so the filter only ever removes rows). NOT PROVED: "
-    "the membership chain 'selection[r] <=> every treatment of r is the control or occurs in a full combination' - the "
-    "obligations through isin/concatenate/unique/flatten/mask-gather discharge in some solver runs and not in others; an "
-    "unstable obligation is not registered (see contracts/c13_unstable_clauses.txt). BOUNDED (native/c13.py, real code, random "
+    "and the returned screen is exactly screen[selection] column by column (so the filter only ever removes rows); for arity 2 "
+    "(the arity the shipped models support) also the keep-set itself: selection[r] <=> every treatment of row r is the control "
+    "or occurs in some row without a control (membership chain through in1d / concatenate / unique / flatten / mask selection, "
+    "with two stepping stones; about one second). At arity 3 one clause of that chain stays `unknown`, so it is not "
+    "registered there (bounded harness). BOUNDED (native/c13.py, real code, random "
     "screens, every clause against an independent reference): single-sample / size-limited plates of the segregating and "
     "pairwise generators (arity 2 and 3), sparse-cover coverage of samples and treatments and the single unobserved remainder, "
     "the combination filter's keep-set, FixedSize / OptimalSize common size and optimality (retained = max_s s*#{plates>=s}), "
